@@ -39,82 +39,119 @@ UF = 'pcbasic/basic/parser/userfunctions.py'
 SAFE_BEFORE_TRY = ('self._memory.scalars.set', 'self._memory.complete_name', 'self._codestream.tell', 'zip')
 
 
+def _inside(node, container_list):
+    """node lies (at any depth) in one of the statements of container_list."""
+    for st in container_list:
+        for x in ast.walk(st):
+            if x is node:
+                return True
+    return False
+
+
+def _covered(fn, node, tr):
+    """The finally of `tr` runs whenever control has passed `node`: node lies in tr.body, or node's statement precedes
+    tr in the same block with only calls that cannot fail with a BASIC error in between."""
+    if _inside(node, tr.body):
+        return True
+    for blk_owner in ast.walk(fn):
+        for fld in ('body', 'orelse'):
+            blk = getattr(blk_owner, fld, None)
+            if isinstance(blk, list) and tr in blk:
+                ti = blk.index(tr)
+                for i, st in enumerate(blk[:ti]):
+                    if _inside(node, [st]):
+                        bad = []
+                        for later in blk[i + 1:ti]:
+                            for c in own_nodes(later):
+                                if isinstance(c, ast.Call) and norm(c.func) not in SAFE_BEFORE_TRY:
+                                    bad.append(short(c))
+                                if isinstance(c, ast.Raise):
+                                    bad.append('raise')
+                        return not bad
+    return False
+
+
+def _pos(n):
+    return (n.lineno, n.col_offset)
+
+
 def check(ctx, rep):
     ev = ctx.fn(UF + ':UserFunction.evaluate')
-    tries = [s for s in ev.body if isinstance(s, ast.Try) and s.finalbody]
-    rep.ob('structure.try-finally', 'evaluate has one top-level try/finally', len(tries) == 1, '%d' % len(tries), ctx.where(ev))
-    if len(tries) != 1:
+    tries = [t for t in own_nodes(ev) if isinstance(t, ast.Try) and t.finalbody]
+    rep.ob('structure.try-finally', 'evaluate undoes its effects in try/finally blocks', 1 <= len(tries) <= 2, '%d' % len(tries), ctx.where(ev))
+    if not tries:
         return
-    tr = tries[0]
-    ti = ev.body.index(tr)
-    before = ev.body[:ti]
-    fin = tr.finalbody
-    # parse call inside try body
-    parse_calls = [n for s in tr.body for n in own_nodes(s) if isinstance(n, ast.Call) and norm(n.func) == 'self._expression_parser.parse']
-    rep.ob('structure.parse-inside-try', 'the function body is parsed inside the try', len(parse_calls) == 1, '', ctx.where(tr))
-    other_parse = [n for s in before + fin for n in own_nodes(s) if isinstance(n, ast.Call) and 'parse' in norm(n.func)]
-    rep.ob('structure.parse-inside-try', 'no expression parsing outside the try', not other_parse, repr([short(o) for o in other_parse]), ctx.where(ev))
+    in_finally = [n for t in tries for st in t.finalbody for n in ast.walk(st)]
+    fin_ids = set(id(n) for n in in_finally)
+    main = [n for n in own_nodes(ev) if id(n) not in fin_ids]      # everything that is not clean-up code
+
+    def tries_with(pred):
+        return [t for t in tries if any(pred(n) for st in t.finalbody for n in ast.walk(st))]
+    # parse call inside the try whose finally restores the code pointer
+    parse_calls = [n for n in main if isinstance(n, ast.Call) and norm(n.func) == 'self._expression_parser.parse']
+    seek_tries = tries_with(lambda n: isinstance(n, ast.Call) and norm(n) == 'self._codestream.seek(save_loc)')
+    rep.ob('structure.parse-inside-try', 'the function body is parsed inside the try', len(parse_calls) == 1 and len(seek_tries) == 1 and _inside(parse_calls[0], seek_tries[0].body),
+           '', ctx.where(ev))
+    other_parse = [n for n in in_finally if isinstance(n, ast.Call) and 'parse' in norm(n.func)]
+    rep.ob('structure.parse-inside-try', 'no expression parsing in the clean-up code', not other_parse, repr([short(o) for o in other_parse]), ctx.where(ev))
+    seeks = [norm(n) for n in in_finally if isinstance(n, ast.Call) and norm(n.func) == 'self._codestream.seek']
+    tells = [a for a in main if isinstance(a, ast.Assign) and norm(a) == 'save_loc = self._codestream.tell()']
+    rep.ob('codestream.restored', 'finally restores the code pointer saved before the parse',
+           seeks == ['self._codestream.seek(save_loc)'] and len(tells) == 1 and len(seek_tries) == 1 and not _inside(tells[0], seek_tries[0].body)
+           and _covered(ev, tells[0], seek_tries[0]) and _pos(tells[0]) < _pos(parse_calls[0]) if parse_calls else False, repr(seeks), ctx.where(ev))
     # saves
-    saves = []
-    for s in before:
-        for n in own_nodes(s):
-            if isinstance(n, ast.Assign) and isinstance(n.targets[0], ast.Subscript) and norm(n.targets[0].value) == 'varsave':
-                saves.append((s, n))
+    saves = [n for n in main if isinstance(n, ast.Assign) and isinstance(n.targets[0], ast.Subscript) and norm(n.targets[0].value) == 'varsave']
     rep.floor('save', len(saves), 1, 'save sites')
-    for s, n in saves:
+    for n in saves:
         rep.ob('save.copies-value', 'saved value is a copy of the variable: %s' % short(n),
                norm(n.value) == 'self._memory.scalars.view(%s).clone()' % norm(n.targets[0].slice), '', ctx.where(n))
     # inside the loop the save is unconditional: no `continue`, `break` or branch can skip a parameter (a parameter
     # that does not exist yet is created first, so that its later removal / restoration to 0 is possible)
-    for s_, n_ in saves:
+    save_loops = []
+    for n_ in saves:
+        s_ = n_._parent
         if isinstance(s_, ast.For):
+            save_loops.append(s_)
             skips = [x for x in own_nodes(s_) if isinstance(x, (ast.Continue, ast.Break))]
-            direct = n_ in s_.body
             creates = [c for c in own_nodes(s_) if isinstance(c, ast.Call) and norm(c.func) == 'self._memory.scalars.set' and len(c.args) == 1]
-            rep.ob('save.every-parameter', 'every parameter is saved, also one that did not exist before the call', direct and not skips and len(creates) == 1,
+            rep.ob('save.every-parameter', 'every parameter is saved, also one that did not exist before the call', not skips and len(creates) == 1,
                    'a parameter can be skipped by the save loop (%s): after the call it keeps the argument value' % ([type(x).__name__ for x in skips] or 'save is conditional'),
                    ctx.where(s_))
-    # the save loop iterates over all completed parameter names
-    save_loops = [s for s, n in saves if isinstance(s, ast.For)]
+        else:
+            rep.ob('save.every-parameter', 'every parameter is saved, also one that did not exist before the call', False, 'the save is conditional', ctx.where(n_))
     if save_loops:
         lp = save_loops[0]
-        src = [norm(a.value) for a in before if isinstance(a, ast.Assign) and norm(a.targets[0]) == norm(lp.iter)]
+        src = [norm(a.value) for a in main if isinstance(a, ast.Assign) and norm(a.targets[0]) == norm(lp.iter)]
         rep.ob('save.covers-all-parameters', 'save loop runs over every parameter name',
                src == ['[self._memory.complete_name(_v) for _v in self._varnames]'], repr(src), ctx.where(lp))
-    # restores in finally
-    restores = [n for s in fin for n in own_nodes(s) if isinstance(n, ast.Call) and isinstance(n.func, ast.Attribute) and n.func.attr == 'copy_from']
+    # restores in a finally that runs whenever a save has happened
+    restores = [n for n in in_finally if isinstance(n, ast.Call) and isinstance(n.func, ast.Attribute) and n.func.attr == 'copy_from']
+    rest_tries = tries_with(lambda n: any(n is r for r in restores))
     ok = len(restores) == 1 and norm(restores[0].func.value) == 'self._memory.scalars.view(name)' and norm(restores[0].args[0]) == 'varsave[name]'
     rep.ob('restore.in-finally-into-existing-buffer', 'finally: scalars.view(name).copy_from(varsave[name]) for every saved name', ok,
-           repr([short(r) for r in restores]), ctx.where(tr))
-    rl = [s for s in fin if isinstance(s, ast.For) and norm(s.iter) == 'varsave']
+           repr([short(r) for r in restores]), ctx.where(ev))
+    rl = [s_ for t in rest_tries for s_ in t.finalbody if isinstance(s_, ast.For) and norm(s_.iter) == 'varsave']
     rep.ob('restore.covers-all-saved', 'finally iterates over all of varsave', len(rl) == 1 and any(r in list(own_nodes(rl[0])) for r in restores),
-           '', ctx.where(tr))
-    rebinding = [n for s in fin for n in own_nodes(s) if isinstance(n, ast.Call) and norm(n.func) == 'self._memory.scalars.set']
-    rep.ob('restore.in-finally-into-existing-buffer', 'finally does not rebind variables with scalars.set', not rebinding, '', ctx.where(tr))
-    # bindings after saves, before try, nothing fallible in between
-    binds = [(s, n) for s in ev.body for n in own_nodes(s) if isinstance(n, ast.Call) and norm(n.func) == 'self._memory.scalars.set' and len(n.args) == 2]
+           '', ctx.where(ev))
+    for n in saves:
+        rep.ob('restore.covers-all-saved', 'the restoring finally runs whenever a value has been saved', len(rest_tries) == 1 and _covered(ev, n, rest_tries[0]),
+               'a failure after the save and outside the try leaves the caller`s variable changed', ctx.where(n))
+    rebinding = [n for n in in_finally if isinstance(n, ast.Call) and norm(n.func) == 'self._memory.scalars.set']
+    rep.ob('restore.in-finally-into-existing-buffer', 'finally does not rebind variables with scalars.set', not rebinding, '', ctx.where(ev))
+    # bindings after saves, under the restoring finally
+    binds = [n for n in main if isinstance(n, ast.Call) and norm(n.func) == 'self._memory.scalars.set' and len(n.args) == 2]
     rep.floor('bind', len(binds), 1, 'binding sites')
-    last_save = max(ev.body.index(s) for s, _ in saves) if saves else -1
-    for s, n in binds:
-        i = ev.body.index(s) if s in ev.body else -1
-        rep.ob('bind.after-save', 'parameter binding follows the save loop: %s' % short(n), last_save < i, '', ctx.where(n))
-        if i < ti:
-            between = ev.body[i:ti]
-            bad = []
-            for st in between:
-                for c in own_nodes(st):
-                    if isinstance(c, ast.Call) and norm(c.func) not in SAFE_BEFORE_TRY:
-                        bad.append(short(c))
-                    if isinstance(c, ast.Raise):
-                        bad.append('raise')
-            rep.ob('bind.nothing-fallible-before-try', 'between first binding and try only non-failing calls occur', not bad, repr(bad), ctx.where(s))
-        else:
-            rep.ob('bind.nothing-fallible-before-try', 'binding inside try', True)
+    last_save = max(_pos(n) for n in saves) if saves else (0, 0)
+    for n in binds:
+        rep.ob('bind.after-save', 'parameter binding follows the save loop: %s' % short(n), last_save < _pos(n) and not any(_inside(n, [lp_]) for lp_ in save_loops), '', ctx.where(n))
+        rep.ob('bind.nothing-fallible-before-try', 'a failure after a binding still restores the variables', len(rest_tries) == 1 and _covered(ev, n, rest_tries[0]), '', ctx.where(n))
     # recursion flag
-    flag_set = [s for s in ev.body if isinstance(s, ast.Assign) and norm(s) == 'self._is_parsing = True']
-    flag_clr = [s for s in fin if isinstance(s, ast.Assign) and norm(s) == 'self._is_parsing = False']
-    rep.ob('recursion.flag-paired', 'flag set once before the try and cleared in its finally',
-           len(flag_set) == 1 and ev.body.index(flag_set[0]) < ti and len(flag_clr) == 1, '', ctx.where(ev))
+    flag_set = [a for a in main if isinstance(a, ast.Assign) and norm(a) == 'self._is_parsing = True']
+    flag_clr = [a for a in in_finally if isinstance(a, ast.Assign) and norm(a) == 'self._is_parsing = False']
+    flag_tries = tries_with(lambda n: any(n is c for c in flag_clr))
+    rep.ob('recursion.flag-paired', 'flag set once before the parse and cleared in a finally that then runs',
+           len(flag_set) == 1 and len(flag_clr) == 1 and len(flag_tries) == 1 and _covered(ev, flag_set[0], flag_tries[0])
+           and bool(parse_calls) and _pos(flag_set[0]) < _pos(parse_calls[0]) and _inside(parse_calls[0], flag_tries[0].body), '', ctx.where(ev))
     other_sets = [n for n in own_nodes(ev) if isinstance(n, ast.Assign) and norm(n.targets[0]) == 'self._is_parsing' and n not in flag_set + flag_clr]
     rep.ob('recursion.flag-paired', 'no other writes to the flag in evaluate', not other_sets, '', ctx.where(ev))
     fl = ctx.flow(ev)
@@ -122,15 +159,12 @@ def check(ctx, rep):
     ok = len(rec) == 1 and fl.knows(rec[0], 'self._is_parsing', True)
     rep.ob('recursion.self-call-raises', 'a function evaluated while already evaluating raises Out of memory', ok, '', ctx.where(ev))
     if rec:
-        st = fl.stmt_of(rec[0])
-        while st not in ev.body:
-            st = st._parent
-        ri = ev.body.index(st)
-        first_touch = min([ev.body.index(s) for s, _ in saves] + [ev.body.index(s) for s, _ in binds if s in ev.body] +
-                          [ev.body.index(s) for s in flag_set])
-        rep.ob('recursion.before-any-variable-touched', 'the self-call test precedes saving, binding and flag setting', ri < first_touch, '', ctx.where(st))
+        first_touch = min([_pos(n) for n in saves] + [_pos(n) for n in binds] + [_pos(n) for n in flag_set])
+        not_cleared = not any(_inside(rec[0], t.body) for t in flag_tries)
+        rep.ob('recursion.before-any-variable-touched', 'the self-call test precedes saving, binding and flag setting, and does not clear the caller`s flag',
+               _pos(rec[0]) < first_touch and not_cleared, '', ctx.where(rec[0]))
     # conversions
-    conv = [a for a in before if isinstance(a, ast.Assign) and norm(a.targets[0]) == 'conversions']
+    conv = [a for a in main if isinstance(a, ast.Assign) and norm(a.targets[0]) == 'conversions']
     rep.ob('arguments.converted-to-parameter-type', 'arguments are converted with TYPE_TO_CONV[completed name sigil]',
            len(conv) == 1 and 'values.TYPE_TO_CONV[self._memory.complete_name(name)[-1:]]' in norm(conv[0].value), '', ctx.where(ev))
     t2c = ctx.mod('pcbasic/basic/values/values.py').assigns.get('TYPE_TO_CONV')
@@ -138,13 +172,13 @@ def check(ctx, rep):
     rep.ob('arguments.converted-to-parameter-type', 'TYPE_TO_CONV maps each sigil to its conversion',
            got == {'STR': 'pass_string', 'INT': 'to_integer', 'SNG': 'to_single', 'DBL': 'to_double'}, repr(got), 'pcbasic/basic/values/values.py')
     # result converted to function type
-    rets = [r.value for s in tr.body for r in own_nodes(s) if isinstance(r, ast.Return)]
-    parsed = [norm(a.targets[0]) for s in tr.body for a in own_nodes(s) if isinstance(a, ast.Assign) and a.value in parse_calls]
+    rets = [r.value for r in main if isinstance(r, ast.Return)]
+    parsed = [norm(a.targets[0]) for a in main if isinstance(a, ast.Assign) and a.value in parse_calls]
     ok = len(rets) == 1 and isinstance(rets[0], ast.Call) and norm(rets[0].func) == 'values.to_type' and len(rets[0].args) == 2 \
         and norm(rets[0].args[0]) == 'self._sigil' and norm(rets[0].args[1]) in parsed
-    rep.ob('result.converted', 'result of the parse is converted to the function sigil', ok, repr([norm(r) for r in rets]), ctx.where(tr))
+    rep.ob('result.converted', 'result of the parse is converted to the function sigil', ok, repr([norm(r) for r in rets]), ctx.where(ev))
     # converted arguments are what gets bound
-    conv_loops = [s for s in before if isinstance(s, ast.For) and norm(s.iter) == 'zip(iargs, conversions)']
+    conv_loops = [s_ for s_ in main if isinstance(s_, ast.For) and norm(s_.iter) == 'zip(iargs, conversions)']
     ok = False
     if len(conv_loops) == 1 and isinstance(conv_loops[0].target, ast.Tuple):
         a_name, c_name = [norm(e) for e in conv_loops[0].target.elts]
@@ -152,30 +186,35 @@ def check(ctx, rep):
         appended = [norm(n.args[0]) for n in own_nodes(conv_loops[0]) if isinstance(n, ast.Call) and norm(n.func) == 'args.append']
         ok = len(appended) == 1 and defs.get(appended[0]) == '%s(%s)' % (c_name, a_name)
     rep.ob('arguments.converted-value-is-bound', 'the value appended to args is conv(arg)', ok, '', ctx.where(ev))
-    # GC roots
-    held = []   # (description, value-text, loop/stmt)
-    for s in before:
-        for n in own_nodes(s):
-            if isinstance(n, ast.Call) and norm(n.func) == 'args.append':
-                held.append(('converted argument', norm(n.args[0]), s))
-            if isinstance(n, ast.Assign) and isinstance(n.targets[0], ast.Subscript) and norm(n.targets[0].value) == 'varsave':
-                held.append(('saved value', norm(n.targets[0]), s))
+    # GC roots: registered where they are created, released in a finally that runs whenever one was registered
+    held = []   # (description, value-text, node)
+    for n in main:
+        if isinstance(n, ast.Call) and norm(n.func) == 'args.append':
+            held.append(('converted argument', norm(n.args[0]), n))
+        if isinstance(n, ast.Assign) and isinstance(n.targets[0], ast.Subscript) and norm(n.targets[0].value) == 'varsave':
+            held.append(('saved value', norm(n.targets[0]), n))
     rep.floor('gc-roots', len(held), 2, 'values held across the parse')
-    for what, text, s in held:
-        adds = [n for n in own_nodes(s) if isinstance(n, ast.Call) and norm(n.func) == 'self._memory.temp_values.add' and norm(n.args[0]) == text]
-        rep.ob('gc-roots.registered', '%s %s is registered in temp_values before the parse' % (what, text), len(adds) == 1,
-               'a string held only in a Python local is not a collector root', ctx.where(s))
-    releases = [norm(n.args[0]) for s in fin for n in own_nodes(s) if isinstance(n, ast.Call)
-                and norm(n.func) in ('self._memory.temp_values.remove', 'self._memory.temp_values.discard')]
-    rep.ob('gc-roots.released', 'finally releases the registered values', sorted(releases) == ['arg', 'varsave[name]'], repr(releases), ctx.where(tr))
+    release_calls = [n for n in in_finally if isinstance(n, ast.Call) and norm(n.func) in ('self._memory.temp_values.remove', 'self._memory.temp_values.discard')]
+    rel_tries = tries_with(lambda n: any(n is r for r in release_calls))
+    for what, text, node in held:
+        blk = node
+        while not isinstance(blk, (ast.For, ast.FunctionDef)):
+            blk = blk._parent
+        adds = [n for n in own_nodes(blk) if isinstance(n, ast.Call) and norm(n.func) == 'self._memory.temp_values.add' and norm(n.args[0]) == text]
+        rep.ob('gc-roots.registered', '%s %s is registered in temp_values before the parse' % (what, text), len(adds) == 1 and isinstance(blk, ast.For),
+               'a string held only in a Python local is not a collector root', ctx.where(node))
+        for ad in adds:
+            rep.ob('gc-roots.released', '%s: the releasing finally runs whenever the value has been registered' % what,
+                   len(rel_tries) == 1 and _covered(ev, ad, rel_tries[0]),
+                   'a failure between the registration and the try (recursive call, Type mismatch in a later argument) leaves the value registered for ever; if it is a temporary string the next collection dereferences freed space',
+                   ctx.where(ad))
+    releases = [norm(n.args[0]) for n in release_calls]
+    rep.ob('gc-roots.released', 'finally releases the registered values', sorted(releases) == ['arg', 'varsave[name]'], repr(releases), ctx.where(ev))
     # the collector actually uses temp_values as roots
     cgb = ctx.fn('pcbasic/basic/memory/memory.py:DataSegment._collect_garbage')
     rep.ob('gc-roots.collector-reads-temp_values', '_collect_garbage includes temp_values among the roots',
            any('self.temp_values' in norm(n) for n in own_nodes(cgb) if isinstance(n, ast.Assign)) and 'temp_strings' in norm(
                [n for n in own_nodes(cgb) if isinstance(n, ast.Assign) and norm(n.targets[0]) == 'string_ptrs'][0].value), '', ctx.where(cgb))
-    # codestream position restored
-    seeks = [norm(n) for s in fin for n in own_nodes(s) if isinstance(n, ast.Call) and norm(n.func) == 'self._codestream.seek']
-    rep.ob('codestream.restored', 'finally restores the code pointer', seeks == ['self._codestream.seek(save_loc)'], repr(seeks), ctx.where(tr))
 
 
 def variants(ctx):
@@ -185,16 +224,15 @@ def variants(ctx):
         return lambda tree: f(mu.find_def(tree, 'UserFunction.evaluate'))
 
     def unwrap_finally(fn):
-        tr = [s for s in fn.body if isinstance(s, ast.Try)][0]
-        i = fn.body.index(tr)
-        # turn `try: A finally: B` into `A'; B` with the return moved last
-        body = [s for s in tr.body if not isinstance(s, ast.Return)]
-        ret = [s for s in tr.body if isinstance(s, ast.Return)]
-        fn.body[i:i + 1] = body + [ast.parse('result = values.to_type(self._sigil, value)').body[0]] + tr.finalbody + ast.parse('return result').body
+        # turn the outer `try: A finally: B` into `A; B` (the restore no longer runs when the body raises)
+        tr = [t for t in ast.walk(fn) if isinstance(t, ast.Try) and any('copy_from' in norm(x) for x in t.finalbody)][0]
+        blk = tr._parent.body if hasattr(tr, '_parent') else fn.body
+        i = blk.index(tr)
+        blk[i:i + 1] = tr.body + tr.finalbody
         return True
 
     return [
-        Va('finally-to-straight-line', 'break', UF, in_ev(unwrap_finally), expect='structure'),
+        Va('finally-to-straight-line', 'break', UF, in_ev(unwrap_finally), expect='restore'),
         Va('restore-rebinds', 'break', UF,
            in_ev(lambda fn: mu.replace_expr(fn, mu.text_is('self._memory.scalars.view(name).copy_from(varsave[name])'),
                                             'self._memory.scalars.set(name, varsave[name])')), expect='restore'),
@@ -210,25 +248,50 @@ def variants(ctx):
         Va('args-not-released', 'break', UF,
            in_ev(lambda fn: mu.remove_stmt(fn, lambda st: isinstance(st, ast.For) and 'temp_values.remove(arg)' in norm(st))), expect='gc-roots.released'),
         Va('parse-before-try', 'break', UF, in_ev(lambda fn: _hoist_parse(fn)), expect='structure.parse'),
+        Va('arguments-registered-outside-protected-region', 'break', UF, in_ev(lambda fn: _hoist_registration(fn)), expect='gc-roots.released'),
         Va('no-argument-conversion', 'break', UF,
            in_ev(lambda fn: mu.replace_stmt(fn, mu.text_is('value = conv(arg)'), 'value = arg')), expect='arguments.converted'),
         Va('rename-save-loc', 'neutral', UF, in_ev(lambda fn: mu.rename_local(fn, 'value', 'val'))),
     ]
 
 
+def _blocks(fn):
+    for n in ast.walk(fn):
+        for fld in ('body', 'orelse', 'finalbody'):
+            b = getattr(n, fld, None)
+            if isinstance(b, list):
+                yield b
+
+
 def _move_rec_check(fn):
-    g = [s for s in fn.body if isinstance(s, ast.If) and norm(s.test) == 'self._is_parsing'][0]
-    fn.body.remove(g)
-    k = [i for i, s in enumerate(fn.body) if norm(s) == 'self._is_parsing = True'][0]
-    fn.body.insert(k, g)
+    src = [(b, st) for b in _blocks(fn) for st in b if isinstance(st, ast.If) and norm(st.test) == 'self._is_parsing'][0]
+    dst = [(b, st) for b in _blocks(fn) for st in b if norm(st) == 'self._is_parsing = True'][0]
+    src[0].remove(src[1])
+    dst[0].insert(dst[0].index(dst[1]), src[1])
     return True
 
 
 def _hoist_parse(fn):
-    tr = [s for s in fn.body if isinstance(s, ast.Try)][0]
-    i = fn.body.index(tr)
-    moved = [s for s in tr.body if 'parse' in norm(s) or 'seek' in norm(s)]
+    """Move the parse (and the seek to the function body) out of the try whose finally restores the code pointer."""
+    tr = [t for t in ast.walk(fn) if isinstance(t, ast.Try) and any('seek(save_loc)' in norm(x) for x in t.finalbody)][0]
+    blk = [b for b in _blocks(fn) if tr in b][0]
+    i = blk.index(tr)
+    moved = [st for st in tr.body if ('parse' in norm(st) or 'seek' in norm(st)) and not isinstance(st, ast.Return)]
     for m in moved:
         tr.body.remove(m)
-    fn.body[i:i] = moved
+    blk[i:i] = moved
+    return True
+
+
+def _hoist_registration(fn):
+    """Move the argument conversion / registration loop and the recursion test in front of the try (the pinned tree's shape)."""
+    tr = [t for t in ast.walk(fn) if isinstance(t, ast.Try) and any('temp_values.remove(arg)' in norm(x) for x in t.finalbody)][0]
+    blk = [b for b in _blocks(fn) if tr in b][0]
+    i = blk.index(tr)
+    moved = [st for st in tr.body if (isinstance(st, ast.For) and 'conversions' in norm(st.iter)) or (isinstance(st, ast.If) and norm(st.test) == 'self._is_parsing')]
+    if len(moved) != 2:
+        return False
+    for m in moved:
+        tr.body.remove(m)
+    blk[i:i] = moved
     return True
